@@ -4,6 +4,7 @@ package c13ref
 
 import (
 	"math/big"
+	"sync"
 )
 
 // ------------------------------------------------------------ short Weierstrass
@@ -21,6 +22,9 @@ type WCurve struct {
 	A, B El
 	N    *big.Int
 	G    WPoint
+
+	tabOnce sync.Once
+	tab     []WPoint // tab[i] = 2^i G
 }
 
 func (c *WCurve) O() WPoint { return WPoint{c.F.Zero(), c.F.Zero(), true} }
@@ -98,8 +102,26 @@ func (c *WCurve) Mul(k *big.Int, p WPoint) WPoint {
 	return r
 }
 
-// MulG is k*G.
-func (c *WCurve) MulG(k *big.Int) WPoint { return c.Mul(k, c.G) }
+// MulG is k*G: the sum of the precomputed 2^i G over the set bits of k mod N
+// (G has order N; the table is built by repeated Double; validated against
+// Mul in the self-check).
+func (c *WCurve) MulG(k *big.Int) WPoint {
+	c.tabOnce.Do(func() {
+		p := c.G
+		for i := 0; i < c.N.BitLen(); i++ {
+			c.tab = append(c.tab, p)
+			p = c.Double(p)
+		}
+	})
+	k = new(big.Int).Mod(k, c.N)
+	r := c.O()
+	for i := 0; i < k.BitLen(); i++ {
+		if k.Bit(i) == 1 {
+			r = c.Add(r, c.tab[i])
+		}
+	}
+	return r
+}
 
 // Lift returns a point with the given x (either y), ok=false if none.
 func (c *WCurve) Lift(x El) (WPoint, bool) {
@@ -134,6 +156,9 @@ type ECurve struct {
 	N    *big.Int
 	H    int64
 	G    EPoint
+
+	tabOnce sync.Once
+	tab     []EPoint // tab[i] = 2^i G
 }
 
 func (c *ECurve) O() EPoint { return EPoint{c.F.Zero(), c.F.One()} }
@@ -193,7 +218,24 @@ func (c *ECurve) Mul(k *big.Int, p EPoint) EPoint {
 	return r
 }
 
-func (c *ECurve) MulG(k *big.Int) EPoint { return c.Mul(k, c.G) }
+// MulG is k*G from the table of 2^i G (see WCurve.MulG).
+func (c *ECurve) MulG(k *big.Int) EPoint {
+	c.tabOnce.Do(func() {
+		p := c.G
+		for i := 0; i < c.N.BitLen(); i++ {
+			c.tab = append(c.tab, p)
+			p = c.MustAdd(p, p)
+		}
+	})
+	k = new(big.Int).Mod(k, c.N)
+	r := c.O()
+	for i := 0; i < k.BitLen(); i++ {
+		if k.Bit(i) == 1 {
+			r = c.MustAdd(r, c.tab[i])
+		}
+	}
+	return r
+}
 
 // LiftY returns a point with the given y: x^2 = (1-y^2)/(a-d y^2).
 func (c *ECurve) LiftY(y El) (EPoint, bool) {
